@@ -28,6 +28,12 @@ def build_cases(res):
 
 
 def run(res):
+    _run(res)
+    import concur_props
+    concur_props.real_slice(res, PID, "wire", 3, 15)
+
+
+def _run(res):
     core.standard_run(res, PID, CONE, GEN, IMPORTS, build_cases,
                       rule=("seeded request sequences (length 0-10) over {init (three kinds, incl. a raising one), succeeding call, "
                             "raising call, preset-using call, shutdown, unrecognised dict}, incl. several inits, requests before any "
